@@ -28,8 +28,14 @@ static FIRED: std::sync::atomic::AtomicBool = std::sync::atomic::AtomicBool::new
 /// per-site tick counts of the current run (index = Site as usize)
 static SITE_COUNTS: [AtomicU64; 8] = [const { AtomicU64::new(0) }; 8];
 
+#[cfg(not(feature = "shuttle"))]
 thread_local! {
     pub static TID: Cell<u32> = const { Cell::new(0) };
+}
+// shuttle runs all tasks on one OS thread: task-local storage must come from shuttle
+#[cfg(feature = "shuttle")]
+shuttle::thread_local! {
+    pub static TID: Cell<u32> = Cell::new(0);
 }
 
 pub fn tid() -> u32 {
